@@ -240,6 +240,17 @@ EvalE(e, env, st, sm) ==
                                    ELSE IF f.c.v.t # "fn" THEN Thr(as.r.st, TypeErr)
                                    ELSE CallFn(as.r.st, f.c.v.v, as.vals, o.c.v))
     [] e.t = "this" -> Ok(st, st.envs[st.envs[env].fenv].th)
+    \* 13.3.5 new: callee, arguments, IsConstructor (arrows and accessor functions are not), 10.2.2 [[Construct]] of an ordinary
+    \* function: a fresh object is this; an object returned by the body replaces it
+    [] e.t = "new" -> (LET f == EvalE(e.k[1], env, st, sm) IN
+                       IF Abrupt(f) THEN f
+                       ELSE LET as == EvalArgs(e.k, 2, env, f.st, sm, <<>>) IN
+                            IF Abrupt(as.r) THEN as.r
+                            ELSE IF f.c.v.t # "fn" \/ as.r.st.fns[f.c.v.v].kind \notin {"func", "named"} THEN Thr(as.r.st, TypeErr)
+                            ELSE LET st1 == [as.r.st EXCEPT !.objs = Append(@, EmptyObj)]
+                                     o == Obj(Len(st1.objs))
+                                     r == CallFn(st1, f.c.v.v, as.vals, o)
+                                 IN IF Abrupt(r) THEN r ELSE IF r.c.v.t = "obj" THEN r ELSE Ok(r.st, o))
     \* 13.15.2 assignment to a property reference: base, right-hand side, PutValue (ToObject(base) fails only now)
     [] e.t = "mset" -> (LET o == EvalE(e.k[1], env, st, sm) IN
                         IF Abrupt(o) THEN o
@@ -308,7 +319,7 @@ EvalProps(k, i, env, st, sm, rec) ==
   ELSE LET pr == k[i] IN
        IF pr.kind \in {"get", "set"}
        THEN \* a getter / setter definition keeps the other half of an accessor defined earlier under the same key, and replaces a data property
-            LET m == MkFn(st, pr.k[1], env, sm)
+            LET m == MkFn(st, [pr.k[1] EXCEPT !.kind = "acc"], env, sm)       \* (accessor functions are not constructors)
                 old == rec[pr.x]
                 g == IF pr.kind = "get" THEN m.id ELSE IF old.k = "acc" THEN old.g ELSE 0
                 sv == IF pr.kind = "set" THEN m.id ELSE IF old.k = "acc" THEN old.s ELSE 0
